@@ -125,16 +125,39 @@ def run(eng: Engine, ck: Check):
     # the conditions under which split_remote_path KEEPS a component: the `if`s of the comprehension it returns, or the guards of the
     # append in the loop that builds the list
     kept: list[tuple[str, list[tuple[ast.AST, bool]]]] = []
+
+    def separator_chars() -> set:
+        """the characters the split pattern consumes (a character class repeated): no component can contain one of them"""
+        import re._parser as rp
+        d = const_value(repo, repo.module('constants.py'), 'PATH_SEPERATOR_PATTERN')
+        src_ = const(d.args[0]) if isinstance(d, ast.Call) and d.args else const(d)
+        out_ = set()
+        try:
+            for op_, av_ in rp.parse(src_ or ''):
+                if str(op_) == 'MAX_REPEAT' and len(av_[2]) == 1 and str(av_[2][0][0]) == 'IN':
+                    out_ |= {chr(c_) for k_, c_ in av_[2][0][1] if str(k_) == 'LITERAL'}
+                elif str(op_) == 'IN':
+                    out_ |= {chr(c_) for k_, c_ in av_ if str(k_) == 'LITERAL'}
+        except Exception:
+            return set()
+        return out_
+
+    def emitted(e_: ast.AST, var: str) -> str:
+        """source of what is emitted; stripping characters that the split has already consumed changes nothing and is read as the component"""
+        if isinstance(e_, ast.Call) and call_name(e_) in ('strip', 'lstrip', 'rstrip') and isinstance(e_.func, ast.Attribute) and unparse(e_.func.value) == var and \
+                len(e_.args) == 1 and isinstance(const(e_.args[0]), str) and const(e_.args[0]) and set(const(e_.args[0])) <= separator_chars():
+            return var
+        return unparse(e_)
     for n in walk_local(srp.node):
         # (what is tested must be what is EMITTED: `part.rstrip() for part in .. if part not in ('.', '..')` tests the raw component and
         # emits another string -- '.. ' passes the test and comes out as '..')
         if isinstance(n, (ast.ListComp, ast.GeneratorExp)) and len(n.generators) == 1 and isinstance(n.generators[0].target, ast.Name) and \
                 mentions_name(n.elt, n.generators[0].target.id) and any(call_name(x) == 'split' for x in ast.walk(n.generators[0].iter)):
-            kept.append((unparse(n.elt), [a_ for i_ in n.generators[0].ifs for a_ in split_conj(i_, True)]))
+            kept.append((emitted(n.elt, n.generators[0].target.id), [a_ for i_ in n.generators[0].ifs for a_ in split_conj(i_, True)]))
         if isinstance(n, ast.Call) and call_name(n) == 'append' and len(n.args) == 1:
             lp_ = next((a_ for a_ in ancestors(n) if isinstance(a_, ast.For) and isinstance(a_.target, ast.Name) and mentions_name(n.args[0], a_.target.id)), None)
             if lp_ is not None and any(call_name(x) == 'split' for x in ast.walk(expand_aliases(srp, lp_.iter))):
-                kept.append((unparse(n.args[0]), [(e_, pol_) for e_, pol_, _ in eng.guards_at(srp, n)]))
+                kept.append((emitted(n.args[0], lp_.target.id), [(e_, pol_) for e_, pol_, _ in eng.guards_at(srp, n)]))
     ck.floor('R-C09-TAINT.split_keeps', len(kept), 1)
 
     def excluded_literals(v: str, atoms) -> set:
